@@ -4,6 +4,7 @@
 mod iterworld;
 mod kernel;
 mod ledger;
+mod miri;
 mod prng;
 mod registry;
 mod runner;
@@ -41,6 +42,24 @@ fn main() {
             let trace = args.iter().any(|a| a == "--trace");
             let sweep = args.iter().any(|a| a == "--sweep");
             with_world!(world, W => runner::worker::<W>(prop, tier, seed, from, to, &out, careful, trace, sweep))
+        }
+        Some("miri-batch") => {
+            // miri-batch <world> <prop> <seed> <from> <to> [--sweep]: in-process, no files; run under
+            // `cargo +nightly miri run`. Prints RUN <i> before each run so that an abort can be located.
+            let world = args[2].as_str();
+            let prop = args[3].as_str();
+            let seed: u64 = args[4].parse().unwrap();
+            let from: u64 = args[5].parse().unwrap();
+            let to: u64 = args[6].parse().unwrap();
+            let sweep = args.iter().any(|a| a == "--sweep");
+            with_world!(world, W => runner::miri_batch::<W>(prop, seed, from, to, sweep, 1, 0))
+        }
+        Some("noop") => 0,
+        Some("miri-multi") => {
+            // miri-multi <prop> <seed> <world:from:to[:sweep]>...
+            let prop = args[2].as_str();
+            let seed: u64 = args[3].parse().unwrap();
+            miri::miri_multi(prop, seed, &args[4..])
         }
         Some("replay") => {
             let path = args.get(2).expect("usage: ksim replay <file>");
